@@ -264,6 +264,13 @@ impl Check for C20 {
                 cases.push(Case::new(src, if anon { 1002 } else { 1001 }, format!("element target {} in position {}", t, pi)));
             }
         }
+        for decl in ["print := 1", "fn print() {\n}", "[print] := [1]", "{print} := {\"print\": 1}", "[a, ..print] := [1, 2]", "{\"k\": print} := {\"k\": 1}", "print = 1", "print += 1", "for print in [1] {\n}", "fn f(print) {\nreturn print\n}\nf(1)", "{\nprint := 1\n}", "if true {\nprint := 1\n}", "f := fn () {\nprint := 1\nreturn print\n}\nf()"] {
+            for pre in ["", "say := print\n", "{\nprint := 0\n}\n", "fn g() {\nprint := 0\n}\ng()\n"] {
+                for post in ["", "print := 2\n"] {
+                    cases.push(Case::new(format!("keep := print\n{}keep(\"pre\")\n{}\nkeep(\"mid\")\n{}keep(\"post\")\n", pre, decl, post), 1003, format!("a name the interpreter declares: {} after {:?} before {:?}", decl.replace('\n', " "), pre.replace('\n', " "), post.replace('\n', " "))));
+                }
+            }
+        }
         for (i, p) in super::evalorder::SCOPING_PROGRAMS.iter().enumerate() {
             cases.push(Case::new(p.to_string(), 1003, format!("which declaration a name reaches, program {}", i)));
         }
